@@ -21,10 +21,12 @@ type SpecEnv struct {
 	st    *State
 	old   *State
 	depth int
+	rangeKey string     // ghost visited-set of the map iteration of the loop being specified
+	rangeMap types.Type
 }
 
 func (env *SpecEnv) child() *SpecEnv {
-	n := &SpecEnv{e: env.e, pkg: env.pkg, vars: map[string]Val{}, st: env.st, old: env.old, depth: env.depth + 1}
+	n := &SpecEnv{e: env.e, pkg: env.pkg, vars: map[string]Val{}, st: env.st, old: env.old, depth: env.depth + 1, rangeKey: env.rangeKey, rangeMap: env.rangeMap}
 	for k, v := range env.vars {
 		n.vars[k] = v
 	}
@@ -45,6 +47,11 @@ func (e *Exec) baseEnv(fr *Frame, st *State) *SpecEnv {
 		// free variables are pointers to the captured variable
 		if v, ok := fr.vals[fv]; ok {
 			env.vars["&"+fv.Name()] = v
+		}
+	}
+	for k, v := range fr.debugVals {
+		if _, clash := env.vars[k]; !clash {
+			env.vars[k] = v
 		}
 	}
 	// named local variables that live in memory (address taken): aggregates are visible as a
@@ -171,6 +178,9 @@ func (env *SpecEnv) coerce(v Val, T types.Type) (Val, error) {
 }
 
 func (env *SpecEnv) resolveType(name string) (types.Type, error) {
+	if strings.TrimSpace(name) == "list" {
+		return listType, nil
+	}
 	return env.e.L.resolveType(env.pkg, name)
 }
 
@@ -698,6 +708,71 @@ func (env *SpecEnv) evalCall(x *SExpr) (Val, error) {
 				return Val{}, fmt.Errorf("addr(): %s is not a direct aggregate field", args[0])
 			}
 			return Val{T: types.NewPointer(fv.Type()), S: subRef(o.S, pt.Elem(), fv.Name()), NN: true}, nil
+		case "list":
+			a, err := env.eval(args[0])
+			if err != nil {
+				return Val{}, err
+			}
+			if kindOf(a.T) != kSlice || scalarSort(a.T.Underlying().(*types.Slice).Elem()) != sStr {
+				return Val{}, fmt.Errorf("list() needs a []string")
+			}
+			return Val{T: listType, S: e.listOf(env.st, a, e.pcNow)}, nil
+		case "snoc":
+			l, err := env.eval(args[0])
+			if err != nil {
+				return Val{}, err
+			}
+			x, err := env.eval(args[1])
+			if err != nil {
+				return Val{}, err
+			}
+			return Val{T: listType, S: app("lsnoc", l.S, x.S)}, nil
+		case "joinl":
+			l, err := env.eval(args[0])
+			if err != nil {
+				return Val{}, err
+			}
+			x, err := env.eval(args[1])
+			if err != nil {
+				return Val{}, err
+			}
+			return Val{T: tString, S: app("joinl", l.S, x.S)}, nil
+		case "ite":
+			c, err := env.evalBool(args[0])
+			if err != nil {
+				return Val{}, err
+			}
+			a, err := env.eval(args[1])
+			if err != nil {
+				return Val{}, err
+			}
+			b, err := env.eval(args[2])
+			if err != nil {
+				return Val{}, err
+			}
+			if isUntyped(a) {
+				a, _ = env.coerce(a, b.T)
+			}
+			if isUntyped(b) {
+				b, _ = env.coerce(b, a.T)
+			}
+			if kindOf(a.T) != kScalar {
+				return Val{}, fmt.Errorf("ite() of non-scalars")
+			}
+			return Val{T: a.T, S: mkIte(c, a.S, b.S)}, nil
+		case "visited":
+			// the map iteration of this loop has already delivered key k
+			if env.rangeKey == "" {
+				return Val{}, fmt.Errorf("visited() outside a loop that ranges over a map")
+			}
+			mt := env.rangeMap.Underlying().(*types.Map)
+			ks, _ := e.mapSorts(env.rangeMap)
+			k, err := env.eval(args[0])
+			if err != nil {
+				return Val{}, err
+			}
+			k, _ = env.coerce(k, mt.Key())
+			return Val{T: tBool, S: sel(e.heapGet(env.st, env.rangeKey, arrSort(ks, sBool)), k.leaves()[0])}, nil
 		case "haskey":
 			m, err := env.eval(args[0])
 			if err != nil {
@@ -786,6 +861,12 @@ func (env *SpecEnv) evalCall(x *SExpr) (Val, error) {
 				return Val{}, fmt.Errorf("str() of %s", a.T)
 			}
 			return Val{T: tString, S: e.strOfBytes(env.st, a, "true")}, nil
+		}
+		if callee.Tok == "lnil" && len(args) == 0 {
+			return Val{T: listType, S: "lnil"}, nil
+		}
+		if fd := e.L.specs.Folds[callee.Tok]; fd != nil {
+			return env.applyFold(fd, args)
 		}
 		// spec function?
 		if sf := e.L.lookupSpecFn(env.pkg, callee.Tok); sf != nil {
@@ -1159,4 +1240,88 @@ func (e *Exec) staticTypeOf(fn *ssa.Function, x *SExpr) types.Type {
 		}
 	}
 	return nil
+}
+
+// applyFold: fold_NAME(arr, off, n, params...) with its base case and one unfolding step stated
+// for exactly this occurrence (the generator instantiates the step axiom itself; no solver-side
+// induction or quantified recursion is needed).
+func (env *SpecEnv) applyFold(fd *FoldDecl, args []*SExpr) (Val, error) {
+	e := env.e
+	if len(args) != len(fd.Params) {
+		return Val{}, fmt.Errorf("fold %s: %d arguments expected", fd.Name, len(fd.Params))
+	}
+	sl, err := env.eval(args[0])
+	if err != nil {
+		return Val{}, err
+	}
+	if kindOf(sl.T) != kSlice {
+		return Val{}, fmt.Errorf("fold %s: first argument must be a slice", fd.Name)
+	}
+	el := sl.T.Underlying().(*types.Slice).Elem()
+	if isAggregate(el) || len(leafSorts(el)) != 1 {
+		return Val{}, fmt.Errorf("fold %s: element type %s", fd.Name, el)
+	}
+	es := leafSorts(el)[0]
+	arr := sel(e.heapGet(env.st, elemKey(el, 0), arrSort(sRef, arrSort(sBV64, es))), sl.sBase())
+	var ps []Val
+	sorts := []string{arrSort(sBV64, es), sBV64, sBV64}
+	pkg := env.pkg
+	if p := e.L.pkgByPath(fd.Pkg); p != nil {
+		pkg = p
+	}
+	for i, a := range args[1:] {
+		v, err := env.eval(a)
+		if err != nil {
+			return Val{}, err
+		}
+		T, err := e.L.resolveType(pkg, fd.Params[i+1].Type)
+		if err != nil {
+			return Val{}, err
+		}
+		v, _ = env.coerce(v, T)
+		v.T = T
+		if kindOf(T) != kScalar {
+			return Val{}, fmt.Errorf("fold %s: parameter %s must be scalar", fd.Name, fd.Params[i+1].Name)
+		}
+		ps = append(ps, v)
+		sorts = append(sorts, scalarSort(T))
+	}
+	fname := sym("fold_" + fd.Name + "_" + typeKey(el))
+	e.once("folddecl:"+fname, func() {
+		e.emit("(declare-fun " + fname + " (" + strings.Join(sorts, " ") + ") Lst)")
+	})
+	mk := func(n string) string {
+		as := []string{arr, sl.sOff(), n}
+		for _, p := range ps {
+			as = append(as, p.S)
+		}
+		return app(fname, as...)
+	}
+	n := sl.sLen()
+	t := mk(n)
+	if reBound.MatchString(t) {
+		return Val{T: listType, S: t}, nil
+	}
+	var stepErr error
+	e.once("fold:"+e.pcNow+":"+t, func() {
+		n1 := app("bvsub", n, bvLitI(64, 1))
+		c := &SpecEnv{e: e, pkg: pkg, vars: map[string]Val{}, st: env.st, old: env.old, depth: env.depth + 1}
+		c.vars[fd.Acc] = Val{T: listType, S: mk(n1)}
+		c.vars[fd.Elem] = Val{T: el, S: sel(arr, app("bvadd", sl.sOff(), n1))}
+		for i, p := range ps {
+			c.vars[fd.Params[i+1].Name] = p
+		}
+		sv, err := c.eval(fd.Step)
+		if err != nil {
+			stepErr = err
+			return
+		}
+		e.assume(mkImp(e.pcNow, mkAnd(
+			mkImp(mkEq(n, bvLitI(64, 0)), mkEq(t, "lnil")),
+			mkImp(app("bvsgt", n, bvLitI(64, 0)), mkEq(t, sv.S)))))
+	})
+	if stepErr != nil {
+		return Val{}, fmt.Errorf("fold %s: %v", fd.Name, stepErr)
+	}
+	return Val{T: listType, S: t}, nil
 }
